@@ -241,25 +241,32 @@ class Computed:
             # back and forth in our parents so let's check to make sure we
             # really need to recalculate
             if not changed:
-                for parent in self.parents.keyrefs():
-                    # does parent still exist?
-                    if parent := parent():
-                        # if yes, compare old and new values for all
-                        # tracked observables on this parent
-                        for name, old_value in self.parents[parent].items():
-                            new_value = getattr(parent, name)
-                            if new_value != old_value:
-                                changed = True
-                                break  # we need to recalculate
+                # this check reads our parents: it must not register them as parents
+                # of an enclosing Computed that happens to be evaluating
+                outer = CURRENT_COMPUTED
+                CURRENT_COMPUTED = None
+                try:
+                    for parent in self.parents.keyrefs():
+                        # does parent still exist?
+                        if parent := parent():
+                            # if yes, compare old and new values for all
+                            # tracked observables on this parent
+                            for name, old_value in self.parents[parent].items():
+                                new_value = getattr(parent, name)
+                                if new_value != old_value:
+                                    changed = True
+                                    break  # we need to recalculate
+                            else:
+                                # trick for breaking cleanly out of nested for loops
+                                # see https://stackoverflow.com/questions/653509/breaking-out-of-nested-loops
+                                continue
+                            break
                         else:
-                            # trick for breaking cleanly out of nested for loops
-                            # see https://stackoverflow.com/questions/653509/breaking-out-of-nested-loops
-                            continue
-                        break
-                    else:
-                        # one of our parents no longer exists
-                        changed = True
-                        break
+                            # one of our parents no longer exists
+                            changed = True
+                            break
+                finally:
+                    CURRENT_COMPUTED = outer
 
             if changed:
                 # the dependencies of the computable function might have changed
